@@ -219,6 +219,14 @@ def runner_tie():
                     "RunnerGen.v", "RunnerC09Proofs.v", "RunnerGen.")
 
 
+def exec_tie():
+    """the three decision kernels of Market._execution (C01): stop test, fill volume, price decision"""
+    import py2coq_exec
+    src = os.path.join(REPO, "pams", "market.py")
+    return _run_tie("translator:pams/market.py(_execution kernels)", src, lambda: py2coq_exec.translate(REPO), "ExecGen.v", "ExecC01Proofs.v",
+                    "ExecGen.")
+
+
 def holdings_sweep_c05(seed=0, tier="quick", cov=None):
     """directed search used with the C05 tie: the real Simulator._update_agents_for_execution on small populations and fill lists
     (self-trades, repeated parties, several markets), against the property text: the buyer pays price x volume and receives volume
